@@ -378,6 +378,15 @@ def triage_error(cfg, rs, s):
                 return Mismatch("did-not-return:still-drawing-after-the-path-ended", **m.detail)
             return m
         return Mismatch("did-not-return:horizon", error=s.error[1])
+    # a crash after the path has left the domain of non-negative rates (only possible when the
+    # user declared no lower limit for a state) is not judged
+    try:
+        ref_path(rs, cfg.x0, cfg.t0, cfg.T, exact, s.log, pre_tau=cfg.pre_tau())
+    except Mismatch as m:
+        if m.what == "harness-negative-rate":
+            raise Skip("out-of-domain")
+    except Skip:
+        pass
     return Mismatch("did-not-return:" + s.error[0], error=s.error[1])
 
 
